@@ -124,7 +124,17 @@ def hardware_case(ctx, i):
                 calls["raised"] += 1
                 raise RuntimeError(f"hardware read of {name} timed out")
             event.element.reset_value(hardware[name])
-        ns["poll"] = on(sources, events.Read)(poll)
+        if i % 2:
+            # the refresh logic lives in a helper object of its own (a hardware link), whose bound method is attached to the
+            # element definitions directly - not a method of the driver
+            class Link:
+                def poll(self, event):
+                    return poll(None, event)
+            link = Link()
+            for src in sources:
+                src.attach_event_handler(events.Read, link.poll)
+        else:
+            ns["poll"] = on(sources, events.Read)(poll)
 
     router = Router()
     drv = D.build(spec, leaf_hook=leaf_hook)(router=router)
